@@ -20,6 +20,7 @@ Sections
             oracle with the run's outputs as ground truth, then save/query histories.
 """
 import csv
+import functools
 import itertools
 import json
 import math
@@ -141,7 +142,25 @@ def _make_sample(names, cols, order, w, dtype, disc=True, **meta):
     return s, dvals
 
 
-def _check_sample(s, names, cols, w, disc, quantiles=(0.5,)):
+@functools.lru_cache(maxsize=100000)
+def _wmean_c(col, w):
+    return R.wmean(col, w)
+
+
+@functools.lru_cache(maxsize=100000)
+def _adm_c(col, w, alpha):
+    return frozenset(R.quantile_admissible(col, w, alpha))
+
+
+def _wmean(col, w):
+    return _wmean_c(tuple(col), None if w is None else tuple(w))
+
+
+def _adm(col, w, alpha):
+    return _adm_c(tuple(col), None if w is None else tuple(w), alpha)
+
+
+def _check_sample(s, names, cols, w, disc, quantiles=(0.5,), observed=None):
     """The P oracle on one sample object.  cols: {name: list of python numbers}, w: list or None.
     Returns None or (signature suffix, detail)."""
     names = list(names)
@@ -171,13 +190,13 @@ def _check_sample(s, names, cols, w, disc, quantiles=(0.5,)):
             return 'discrepancies', {'got': _lst(s.discrepancies), 'expected': None}
     elif not _same_numbers(s.discrepancies, disc):
         return 'discrepancies', {'got': _lst(s.discrepancies), 'expected': disc}
-    exact = {k: R.wmean(cols[k], w) for k in names}
+    exact = {k: _wmean(cols[k], w) for k in names}
     sm = s.sample_means
     if list(sm.keys()) != names:
         return 'sample_means:key-order', {'got': list(sm.keys()), 'parameter_names': names}
     for k in names:
         if not _close(sm[k], exact[k]):
-            plain = w is not None and _close(sm[k], R.wmean(cols[k], None))
+            plain = w is not None and _close(sm[k], _wmean(cols[k], None))
             return ('sample_means:weights-ignored' if plain else 'sample_means:not-weighted-average',
                     {'parameter': k, 'got': _lst(sm[k]), 'expected': float(exact[k]), 'x': cols[k], 'w': w})
     sma = s.sample_means_array
@@ -191,7 +210,7 @@ def _check_sample(s, names, cols, w, disc, quantiles=(0.5,)):
         if len(t) != 3 or not _close(t[0], exact[k]):
             return 'ci:mean', {'parameter': k, 'got': _lst(t), 'expected_mean': float(exact[k])}
         for pos, alpha in ((1, F(25, 1000)), (2, F(975, 1000))):
-            adm = R.quantile_admissible(cols[k], w, alpha)
+            adm = _adm(cols[k], w, alpha)
             if np.ndim(t[pos]) != 0 or R.frac(t[pos]) not in adm:
                 return 'ci:not-weighted-quantile', {'parameter': k, 'alpha': float(alpha), 'got': _lst(t[pos]),
                                                     'admissible': sorted(float(a) for a in adm), 'x': cols[k], 'w': w}
@@ -200,11 +219,13 @@ def _check_sample(s, names, cols, w, disc, quantiles=(0.5,)):
         if list(q.keys()) != names:
             return 'quantiles:key-order', {'got': list(q.keys()), 'parameter_names': names}
         for k in names:
-            adm = R.quantile_admissible(cols[k], w, alpha)
+            adm = _adm(cols[k], w, alpha)
             if np.ndim(q[k]) != 0 or R.frac(q[k]) not in adm:
                 return 'quantiles:not-weighted-quantile', {'parameter': k, 'alpha': alpha, 'got': _lst(q[k]),
                                                            'admissible': sorted(float(a) for a in adm),
                                                            'x': cols[k], 'w': w}
+    if observed is not None:
+        observed.append((tuple(float(sm[k]) for k in names), tuple((float(ci[k][1]), float(ci[k][2])) for k in names)))
     return None
 
 
@@ -231,11 +252,11 @@ def _sample_matrices(case):
 def _run_one_sample(names, order, w, dtype, X):
     cols = {k: list(c) for k, c in zip(names, X)}
     s, disc = _make_sample(names, cols, order, w, dtype, n_sim=12, threshold=0.5)
-    v = _check_sample(s, names, cols, w, disc)
+    obs = []
+    v = _check_sample(s, names, cols, w, disc, observed=obs)
     if v:
         return v, None
-    return None, (tuple(float(s.sample_means[k]) for k in names),
-                  tuple(float(s.sample_means_and_95CIs[names[0]][i]) for i in (1, 2)))
+    return None, obs[0]
 
 
 @guarded('C16')
@@ -278,6 +299,8 @@ def _weight_kinds(n):
     ws = [None, [2] * n, [1, 2, 3, 4, 5][:n]]
     if n >= 2:
         ws += [[0, 1, 2, 1, 3][:n], [3, 1, 0, 0, 2][:n]]
+        # one element carries between 2.5% and 5% of the weight: distinguishes the 0.025/0.975 levels from 0.05/0.95
+        ws += [[1, 29, 1, 1, 1][:n], [29, 1, 1, 1, 1][:n]]
     return ws
 
 
@@ -312,6 +335,7 @@ def _sample_cases(q):
                             weights = _all_weights(n, 2) if n <= 4 else _all_weights(n, 1)
                         elif p == 3 and n <= 4:
                             weights = _all_weights(n, 1)
+                        weights = weights + [w for w in _weight_kinds(n) if w not in weights]
                     for w in weights:
                         cases.append({'kind': 'samples', 'names': names, 'order': order, 'n': n, 'w': w,
                                       'dtype': dtype, 'cols': spec[0], 'k': spec[1]})
@@ -542,9 +566,12 @@ def _readback(fmt, path, obj_cls, truth, q0):
         with open(path) as f:
             d = json.load(f)
         sam = d.get('samples') if isinstance(d, dict) else None
-        if not isinstance(sam, dict) or list(sam.keys()) != names:
+        # a JSON object is an unordered mapping: the same samples = the same name -> values mapping
+        if not isinstance(sam, dict) or sorted(sam.keys()) != sorted(names):
             return 'json:readback-differs', {'got_keys': list(sam.keys()) if isinstance(sam, dict) else repr(sam)[:100],
                                              'parameter_names': names}
+        if 'parameter_names' in d and d['parameter_names'] != names:
+            return 'json:parameter_names-differ', {'got': d['parameter_names'], 'parameter_names': names}
         for k in names:
             if not isinstance(sam[k], list) or not _same_numbers(sam[k], cols[k]):
                 return 'json:readback-differs', {'parameter': k, 'got': sam[k], 'expected': cols[k]}
@@ -559,19 +586,20 @@ def _readback(fmt, path, obj_cls, truth, q0):
             for (key, pd), tp in zip(pops.items(), truth['pops']):
                 ps = pd.get('samples') if isinstance(pd, dict) else None
                 if isinstance(ps, dict):
-                    if list(ps.keys()) != names or not all(_same_numbers(ps[k], tp['cols'][k]) for k in names):
+                    if sorted(ps.keys()) != sorted(names) or not all(_same_numbers(ps[k], tp['cols'][k]) for k in names):
                         return 'json:population-differs', {'population': key, 'got': ps, 'expected': tp['cols']}
         return None
     if fmt == 'csv':
         with open(path, newline='') as f:
             rows = list(csv.reader(f))
-        if not rows or rows[0] != names:
+        # columns are identified by their header cell (any column order is the same name -> values mapping)
+        if not rows or sorted(rows[0]) != sorted(names):
             return 'csv:readback-differs', {'header': rows[:1], 'parameter_names': names}
         body = rows[1:]
         n = len(cols[names[0]])
         if len(body) != n or any(len(r) != len(names) for r in body):
             return 'csv:readback-differs', {'n_rows': len(body), 'expected': n}
-        for j, k in enumerate(names):
+        for j, k in enumerate(rows[0]):
             try:
                 got = [int(r[j]) if isinstance(cols[k][i], int) else float(r[j]) for i, r in enumerate(body)]
             except ValueError:
@@ -1010,9 +1038,10 @@ def _run(ctx):
         'of the exact-rational admissible set {q in x: W(<=q) >= alpha, W(<q) <= alpha}, alpha widened by 1e-9 so '
         'that both neighbours are accepted on a cumulative-weight boundary' % RTOL,
         'weight vectors are non-negative with positive sum (all-zero weights are invalid input)',
-        'file read-back with the stdlib parsers: json -> key "samples" (ordered object of lists), csv -> header + '
-        'float()/int() of every cell, pickle -> full oracle on the loaded object; weights / discrepancies / '
-        'populations in the json file are compared only when present',
+        'file read-back with the stdlib parsers: json -> key "samples" (name -> list mapping, key order free), csv -> '
+        'columns identified by the header cell (column order free), float()/int() of every cell, pickle -> full '
+        'oracle on the loaded object; parameter_names / weights / discrepancies / populations in the json file are '
+        'compared only when present',
         'queries are compared by structural digest (type, dtype, shape, bytes) with their value before the history',
         'ESS / split R-hat reference: direct-sum autocovariance form in exact rationals, rtol %g; cases whose '
         'truncation statistic rho_t is within 1e-9 of zero at or before the truncation lag are skipped and counted; '
